@@ -14,7 +14,7 @@
 (*   c  classification labels computed by the spec (wall class, fold, ...)   *)
 (*   v  failed clauses, << <<clause, expected>>, ... >>; empty = conforming  *)
 (***************************************************************************)
-EXTENDS OpsDiff, OpsCalendar, TLCExt
+EXTENDS OpsDiff, OpsModifiers, OpsCalendar, TLCExt
 
 T == JsonDeserialize(IOEnv.PV_TRACE)
 VARIABLES l, nbad
@@ -177,6 +177,82 @@ J_iv_comp(e) ==
                               \o V("add-components", ValidPoint(b, p.addc), b.w)
                          ELSE <<>>)))
 
+\* ---- C12 -----------------------------------------------------------------------------
+J_start_end(e) ==
+  LET end == e.op = "end_of"  u == e.a.unit  cfg == e.a.cfg IN
+  IF e.pre[1].k = "date"
+  THEN LET w == e.pre[1].w  x == IF end THEN EndOfDate(w, u, cfg) ELSE StartOfDate(w, u, cfg) IN
+       R(<<"date", u, N(cfg.ws)>>,
+         IF e.post.k = "exc" THEN << <<"unexpected-exception", e.post.names>> >>
+         ELSE IF e.post.k # "date" THEN << <<"kind", e.post.k>> >>
+         ELSE V("class", e.post.cls = "Date", "Date") \o V("date", e.post.w = x, x))
+  ELSE LET s == Src(e)
+           x == IF end THEN EndOfRef(s, u, cfg) ELSE StartOfRef(s, u, cfg)
+           bw == IF end THEN UnitEndW(u, s.w, cfg) ELSE UnitStartW(u, s.w, cfg)
+           bc == BoundaryClass(s, u, cfg, end)
+           \* a skipped boundary is "aligned" when the gap starts exactly at the unit's first reading
+           \* (resp. ends right after its last one): there the documented shift lands on the right instant
+           al == IF bc # "skipped" THEN "-"
+                 ELSE LET z == EZ(Z(s.z), YearOf(WDS(bw)[1]))  k == Idx(z, 1, WDS(bw))
+                      IN IF end THEN B(TrKey(z, 0, k) = DSAdd(WDS(bw), 1)) ELSE B(TrKey(z, 1, k) = WDS(bw))
+           xday == IF IsNaive(s) THEN "unique" ELSE Classify(Z(s.z), <<Ord(s.w[1], s.w[2], s.w[3]), 0>>)
+       IN IF ClassOf(s) = "skipped" THEN R(<<"ill-formed-source">>, <<>>) ELSE
+          R(<<"dt", u, (IF end THEN "end" ELSE "start"), "boundary", bc, "aligned", al, "fold", B(s.f = 1),
+              "x", ClassOf(s), "xday", xday, e.a.how>>
+            \o (IF u = "week" /\ ~IsNaive(s)
+                    /\ \E dd \in -7..7 : Classify(Z(s.z), <<Ord(s.w[1], s.w[2], s.w[3]) + dd, 43200>>) = "skipped"
+                THEN <<"week-contains-skipped-day">> ELSE <<>>),
+            CmpOut(e.post, x, "DateTime"))
+
+\* ---- C16 -----------------------------------------------------------------------------
+\* expected: midnight (or the kept time) of ordinal day n in the zone of s.  An ambiguous target may be
+\* either occurrence; a skipped one is normalised by the construction rules (default fold).
+CmpAtDay(post, s, n, keep) ==
+  LET w == IF keep THEN DateW(n, s.w[4], s.w[5], s.w[6], s.w[7]) ELSE DateW(n, 0, 0, 0, 0)
+      c == IF IsNaive(s) THEN "unique" ELSE Classify(Z(s.z), WDS(w))
+  IN IF post.k = "exc" THEN << <<"unexpected-exception", post.names>> >>
+     ELSE IF post.k # "dt" THEN << <<"kind", post.k>> >>
+     ELSE IF c = "repeated"
+          THEN V("class", post.cls = "DateTime", "DateTime") \o V("zone", ZRef(post.z) = s.z, s.z)
+               \o V("wall", post.w = w, w) \o V("offset", post.off = OffOf(DT(s.z, post.w, post.f)), "tz database")
+          ELSE CmpDT(post, Construct(s.z, w, 1))
+TargetClass(s, n, keep) == IF IsNaive(s) THEN "unique"
+   ELSE Classify(Z(s.z), WDS(IF keep THEN DateW(n, s.w[4], s.w[5], s.w[6], s.w[7]) ELSE DateW(n, 0, 0, 0, 0)))
+CmpDate(post, n) == IF post.k = "exc" THEN << <<"unexpected-exception", post.names>> >>
+                    ELSE IF post.k # "date" THEN << <<"kind", post.k>> >>
+                    ELSE V("class", post.cls = "Date", "Date") \o V("date", post.w = YMD(n), YMD(n))
+J_nav(e) ==
+  LET p == e.pre[1]  isd == p.k = "date"
+      n0 == Ord(p.w[1], p.w[2], p.w[3])
+      wd0 == IF e.a.wd = -1 THEN Dow(n0) ELSE e.a.wd
+      keep == ~isd /\ e.a.keep
+      n == IF e.op = "next" THEN NextOrd(n0, wd0) ELSE PrevOrd(n0, wd0)
+  IN IF n < 400 \/ n > 3651600 THEN R(<<"out-of-range">>, <<>>)
+     ELSE IF isd THEN R(<<"date", e.op, N(Abs(n - n0) - 1)>>, CmpDate(e.post, n))
+     ELSE LET s == Src(e) IN
+          R(<<"dt", e.op, B(keep), "target", TargetClass(s, n, keep), "fold", B(s.f = 1),
+              "path-anomaly", (IF IsNaive(s) THEN "0" ELSE B(MidnightAnomaly(Z(s.z), Min(n0, n), Max(n0, n)) \/ ClassOf(s) # "unique")),
+              "skipped-day", (IF IsNaive(s) THEN "0" ELSE B(SkippedDay(Z(s.z), Min(n0, n) - 1, Max(n0, n) + 1)))>>,
+            CmpAtDay(e.post, s, n, keep))
+\* the implementation walks day by day from the first day of the unit: any skipped/repeated midnight
+\* between the first day of the unit and the first day after it (or an ill-placed source) taints the path
+PathLabel(s, unit, y, m) == IF IsNaive(s) THEN "0"
+   ELSE B(ClassOf(s) # "unique" \/ MidnightAnomaly(Z(s.z), UnitFirst(unit, y, m) - 1, UnitLast(unit, y, m) + 8))
+J_of(e) ==
+  LET p == e.pre[1]  isd == p.k = "date"  unit == e.a.unit  wd == e.a.wd
+      y == p.w[1]  m == p.w[2]
+      n == CASE e.op = "first_of" -> FirstOfOrd(unit, y, m, wd)
+             [] e.op = "last_of" -> LastOfOrd(unit, y, m, wd)
+             [] e.op = "nth_of" -> NthOfOrd(unit, y, m, e.a.n, wd)
+      lab == <<(IF isd THEN "date" ELSE "dt"), e.op, unit, B(n = 0)>>
+  IN IF n = 0
+     THEN R(lab \o (IF isd THEN <<>> ELSE <<"path-anomaly", PathLabel(Src(e), unit, y, m)>>), IF e.post.k = "exc" THEN V("exception-class", "PendulumException" \in ToSet(e.post.names), "PendulumException")
+                 ELSE << <<"must-raise", "PendulumException">> >>)
+     ELSE IF isd THEN R(lab, CmpDate(e.post, n))
+     ELSE LET s == Src(e) IN
+          R(lab \o <<"target", TargetClass(s, n, FALSE), "fold", B(s.f = 1), "path-anomaly", PathLabel(s, unit, y, m)>>,
+            CmpAtDay(e.post, s, n, FALSE))
+
 \* ---- C15 -----------------------------------------------------------------------------
 J_year_prims(e) == LET y == e.a.y IN
    R(<<B(IsLeap(y)), B(IsLongYear(y))>>,
@@ -222,6 +298,9 @@ Judge(e) == CASE e.op = "in_tz" -> J_in_tz(e)
               [] e.op = "add_cal_date" -> J_add_cal_date(e)
               [] e.op = "iv_len" -> J_iv_len(e)
               [] e.op = "iv_comp" -> J_iv_comp(e)
+              [] e.op \in {"start_of", "end_of"} -> J_start_end(e)
+              [] e.op \in {"next", "previous"} -> J_nav(e)
+              [] e.op \in {"first_of", "last_of", "nth_of"} -> J_of(e)
               [] e.op = "year_prims" -> J_year_prims(e)
               [] e.op = "year_weekdays" -> J_year_weekdays(e)
               [] e.op = "year_getters" -> J_year_getters(e)
